@@ -35,6 +35,52 @@ def oracle(ctx, st, req, agent, rec, trace):
 WEIGHTS = {"new_task": 18, "new_epic": 3, "set": 50, "claim": 14, "claim_oldest": 8, "sequence": 3, "prune_yes": 1, "compact": 1, "plan": 2}
 
 
+def probe_setev_diffs(ctx, diffs):
+    """the exhaustive decision table disagrees with the model on these requests: run each one for real — bring a fresh task to the request's
+    pre-state through the CLI (when that pre-state is CLI-reachable), issue the same `set`, and let the property's oracle judge the result"""
+    import json
+    reach = {("todo", False): [], ("doing", True): [("claim",)], ("blocked", False): [("set", {"state": "blocked"})], ("blocked", True): [("claim",), ("set", {"state": "blocked"})],
+             ("done", False): [("set", {"state": "done"})], ("canceled", False): [("set", {"state": "canceled"})], ("error", True): [("claim",), ("set", {"state": "error"})]}
+    outs = common.model_batch([{"op": "replay", "tag": i, "events": d["req"]["events"], "pairs": [], "epic": ""} for i, d in enumerate(diffs)])
+    seen = set()
+    for d, o in zip(diffs, outs):
+        g = o.get("graph") or {}
+        t = next((x for x in g.get("tasks", []) if x["id"] == d["req"]["id"]), None)
+        if not t or t["is_epic"]:
+            continue
+        key = (t["st"], t["claimed_by"] != "", common.canon(d["req"]["updates"]), d["req"]["agent"] != "")
+        steps = reach.get((t["st"], t["claimed_by"] != ""))
+        if steps is None or key in seen:
+            continue
+        seen.add(key)
+        if len(seen) > 40:
+            break
+        st = cmdrun.Store(ctx.ergo, ctx.go)
+        trace = []
+        try:
+            def ex(argv, stdin=None):
+                rr = st.exec(argv, stdin)
+                trace.append({"argv": argv, "stdin": None if stdin is None else stdin.decode(), "exit": rr["exit"]})
+                return rr
+            tid = json.loads(ex(["--json", "new", "task"], b'{"title":"t","body":"b"}')["stdout"])["id"]
+            for sp in steps:
+                if sp[0] == "claim":
+                    ex(["--json", "--agent", "prev", "claim", tid])
+                else:
+                    ex(["--json", "--agent", "prev", "set", tid], json.dumps(sp[1]).encode())
+            pre = st.graph()
+            argv = ["--json"] + (["--agent", d["req"]["agent"]] if d["req"]["agent"] else []) + ["set", tid]
+            rr = ex(argv, json.dumps(d["req"]["updates"]).encode())
+            post = st.graph()
+            req = {"cmd": "set", "id": tid, "piped": True, "body_stdin": False, "flags": {}, "json": d["req"]["updates"]}
+            rec = {"exit": rr["exit"], "pre": pre, "post": post, "errclass": None, "changed": pre.get("n") != post.get("n"), "pre_n": pre.get("n"), "post_n": post.get("n")}
+            ctx.count(1, key=("setev-probe", t["st"], t["claimed_by"] != "", common.canon(sorted(d["req"]["updates"]))))
+            if "err" not in pre and "err" not in post and oracle(ctx, st, req, d["req"]["agent"], rec, trace):
+                return
+        finally:
+            st.close()
+
+
 def run(ctx):
     framework.check_facts(ctx, ctx.facts, ["valid_transitions", "valid_states", "claim_required", "claim_forbidden", "clears_claim"])
     res = fndiff.run_stream(ctx.ev, ["fn-setev"])
@@ -44,6 +90,8 @@ def run(ctx):
         ctx.distinct.add("setev:" + k)
     for d in res["diffs"][:3]:
         ctx.tie_broken("T2-fn buildSetEvents", {"first_difference": fndiff.first_difference(d["go"], d["model"]), "req": d["req"]})
+    if res["diffs"]:
+        probe_setev_diffs(ctx, res["diffs"])
     r = gen.Rng(ctx.seed * 1000003 + 6)
     for h in range(25 if ctx.quick else 400):
         run_history(ctx, r.fork(), 30, WEIGHTS, oracle)
